@@ -1287,33 +1287,73 @@ pub fn inject(r: &mut Rng, base: &[Line], fault: &Fault, pos: Pos) -> Faulty {
 // ---------------------------------------------------------------------------
 
 pub struct Stream {
+    /// The bytes as they are written to the stream ("the wire").
     pub bytes: Vec<u8>,
     /// Reference entries (for a malformed stream: only the well-formed ones
     /// before the bad entry are ever compared).
     pub entries: Vec<Entry>,
     /// Canonical text of each entry (without the separating blank line).
     pub texts: Vec<String>,
-    /// Byte offset where each entry starts; `starts[k+1]` is one past the
-    /// newline of entry k's blank line.
+    /// Byte offset where each entry starts on the wire; `starts[k+1]` is one
+    /// past the newline of entry k's blank line.
     pub starts: Vec<usize>,
+    /// The canonical rendering of the whole stream (what printing the
+    /// collection must give) and the offsets of its entries.  Equal to
+    /// `bytes` / `starts` unless the wire carries the variables of an entry in
+    /// another order than the canonical one.
+    pub canon: Vec<u8>,
+    pub canon_starts: Vec<usize>,
     /// Index and fault of the malformed entry, if any.
     pub bad: Option<(usize, Fault)>,
 }
 
 impl Stream {
     pub fn from_texts(entries: Vec<Entry>, texts: Vec<String>, bad: Option<(usize, Fault)>) -> Stream {
-        let mut bytes = vec![];
-        let mut starts = vec![0];
-        for t in &texts {
-            bytes.extend_from_slice(t.as_bytes());
-            bytes.push(b'\n');
-            starts.push(bytes.len());
-        }
-        Stream { bytes, entries, texts, starts, bad }
+        let wire = texts.clone();
+        Stream::from_wire(entries, texts, wire, bad)
+    }
+    /// `wire[k]` is what is sent for entry k, `texts[k]` what it prints as.
+    pub fn from_wire(entries: Vec<Entry>, texts: Vec<String>, wire: Vec<String>, bad: Option<(usize, Fault)>) -> Stream {
+        let lay = |ts: &[String]| {
+            let mut bytes = vec![];
+            let mut starts = vec![0];
+            for t in ts {
+                bytes.extend_from_slice(t.as_bytes());
+                bytes.push(b'\n');
+                starts.push(bytes.len());
+            }
+            (bytes, starts)
+        };
+        let (bytes, starts) = lay(&wire);
+        let (canon, canon_starts) = lay(&texts);
+        Stream { bytes, entries, texts, starts, canon, canon_starts, bad }
     }
     pub fn len(&self) -> usize {
         self.bytes.len()
     }
+}
+
+/// The lines of a canonical entry text with the per-variable blocks in
+/// another order (the lines of one multi-line variable stay together and in
+/// order, so the entry's values are unchanged).
+pub fn shuffle_blocks(r: &mut Rng, text: &str) -> String {
+    let mut blocks: Vec<Vec<&str>> = vec![];
+    for line in text.lines() {
+        let var = line.split('=').next().unwrap_or("");
+        match blocks.last_mut() {
+            Some(b) if b[0].split('=').next().unwrap_or("") == var => b.push(line),
+            _ => blocks.push(vec![line]),
+        }
+    }
+    r.shuffle(&mut blocks);
+    let mut out = String::new();
+    for b in blocks {
+        for l in b {
+            out.push_str(l);
+            out.push('\n');
+        }
+    }
+    out
 }
 
 /// A well-formed stream of `n` compact entries.
@@ -1334,7 +1374,14 @@ pub fn stream(r: &mut Rng, n: usize, opt_num: usize, opt_den: usize, tiny: bool)
             entries.push(e);
         }
     }
-    let texts = entries.iter().map(|e| e.print()).collect();
+    let texts: Vec<String> = entries.iter().map(|e| e.print()).collect();
+    // one stream in four carries its variables in a non-canonical order: every
+    // write still succeeds, the entries are the same, and printing the
+    // collection gives the canonical rendering
+    if r.chance(1, 4) {
+        let wire = texts.iter().map(|t| shuffle_blocks(r, t)).collect();
+        return Stream::from_wire(entries, texts, wire, None);
+    }
     Stream::from_texts(entries, texts, None)
 }
 
